@@ -239,7 +239,7 @@ func Monitor(spec *Spec, tr *Trace) []Finding {
 					continue
 				}
 				for _, t := range m.Tasks {
-					if strings.Contains(ee.Text, ":t"+strconv.Itoa(t)+" ") {
+					if strings.Contains(ee.Text, ":t"+strconv.Itoa(t)+TaskSuffix(spec)+" ") {
 						reported[t]++
 					}
 				}
@@ -369,8 +369,8 @@ func Monitor(spec *Spec, tr *Trace) []Finding {
 				}
 				for _, t := range m.Tasks {
 					for _, d := range m.Deps[t] {
-						pt, ok1 := pos["t"+strconv.Itoa(t)]
-						pd, ok2 := pos["t"+strconv.Itoa(d)]
+						pt, ok1 := pos["t"+strconv.Itoa(t)+TaskSuffix(spec)]
+						pd, ok2 := pos["t"+strconv.Itoa(d)+TaskSuffix(spec)]
 						if ok1 && ok2 && pd > pt {
 							add("C16", "DepthFirstSort puts t%d before its dependency t%d: %v", t, d, tr.SortIDs)
 						}
@@ -476,6 +476,36 @@ func Monitor(spec *Spec, tr *Trace) []Finding {
 			}
 			if tr.SerialCounter != n {
 				add("C15", "serial mode: unsynchronized shared counter is %d after %d task executions (lost update)", tr.SerialCounter, n)
+			}
+		}
+	}
+	if ng > 1 {
+		// the bound holds per graph (each Run has its own limit), also while a shared Task makes a graph wait
+		for gi := 0; gi < ng; gi++ {
+			limit := 1 << 20
+			if spec.MaxPar > 0 {
+				limit = spec.MaxPar
+			}
+			if spec.Serial || spec.SerialMask&(1<<uint(gi)) != 0 {
+				limit = 1
+			}
+			live, peak := 0, 0
+			for _, e := range tr.Events {
+				if e.Graph != gi {
+					continue
+				}
+				switch e.Kind {
+				case EvEnter:
+					live++
+					if live > peak {
+						peak = live
+					}
+				case EvExit:
+					live--
+				}
+			}
+			if peak > limit {
+				add("C15", "graph %d of %d sharing tasks: %d of its task functions were executing at the same time, its limit is %d", gi, ng, peak, limit)
 			}
 		}
 	}
